@@ -104,6 +104,9 @@ static void check_keepalive(struct c13 *c, int r)
 {
     struct ev_be *e = BE(c);
     if (c->ret) return;
+    /* C13 speaks of the watcher being active in the loop; what the non-blocking status (0) does to the
+     * loop's keep-alive count is not part of the property: judged only for pumps that always had status 1 */
+    if (c->status0_seen) return;
     if (e->timer0 && e->armed == ARM_MAYBE) return;
     bool w = watcher_active(c);
     bool expect = w && c->status;
